@@ -3,7 +3,10 @@
    N, Z, positive and nat stay the extracted inductives. *)
 From Coq Require Import ExtrOcamlBasic.
 From RbxVerif Require Import Base Dom Tree Intern.
+From RbxVerif Require Import Attr AttrSpec.
+From RbxVerif Require Import XmlEvents.
 Extraction Language OCaml.
 Set Extraction KeepSingleton.
-Extraction "model.ml" Dom.step Dom.world0 Dom.dom_descendants_of Tree.astep Tree.aworld0 Tree.aflat Tree.bfs_all Tree.ffind
+Extraction "model.ml" XmlEvents.channel Attr.attr_encode Attr.attr_decode Attr.norm AttrSpec.spec_encode AttrSpec.spec_decode AttrSpec.spec_norm Rotation.to_normal_id Rotation.to_basic_rotation_id Rotation.from_basic_rotation_id
+  Dom.step Dom.world0 Dom.dom_descendants_of Tree.astep Tree.aworld0 Tree.aflat Tree.bfs_all Tree.ffind
   Intern.tstep Intern.tinit Intern.table_len.
